@@ -28,6 +28,9 @@ pub enum Act {
     NftCreate,
     /// same, depositing the whole input so that the triple is the transaction's last outputs
     NftCreateNoChange,
+    /// the owner of an NFT spends the payload (the Normal slip between the two Bound slips) on
+    /// its own with a hand-made transaction; the Bound slips stay behind unspent
+    SpendNftPayload,
     Empty,
 }
 
@@ -124,6 +127,15 @@ fn build_tx(p: &mut Prod, act: &Act, ts: u64) -> Option<Transaction> {
                 Outcome::Done(Ok(t)) => Some(t),
                 _ => None,
             }
+        }
+        Act::SpendNftPayload => {
+            let me = p.node.key;
+            let mine: Vec<Slip> = p.ledger.slips().into_iter().filter(|s| s.public_key == me.public).collect();
+            if std::env::var("VERIF_C13_DEBUG").is_ok() {
+                eprintln!("payload candidates at h={}: {:?}", h, mine.iter().map(|s| format!("{}-{}-{}:{}:{:?}", s.block_id, s.tx_ordinal, s.slip_index, s.amount, s.slip_type)).collect::<Vec<_>>());
+            }
+            let s = mine.iter().find(|s| s.slip_type == SlipType::Normal && s.slip_index == 1 && s.block_id + g > h + 1 && mine.iter().any(|b| b.slip_type == SlipType::Bound && b.block_id == s.block_id && b.tx_ordinal == s.tx_ordinal && b.slip_index == 0))?.clone();
+            Some(make_tx(&[s.clone()], &[(me.public, s.amount)], &me, ts, b"payload"))
         }
         Act::Empty => None,
     }
@@ -224,6 +236,11 @@ fn monitor(b: &Block, before: &RefLedger, parent: &Block, expiring: Option<&Bloc
 }
 
 pub fn run_history(g: u64, steps: &[Step], prune: u64, rep: &mut Report) {
+    run_history_with(g, steps, prune, false, rep)
+}
+
+/// `supply`: the conservation oracle of C02 after every accepted block
+pub fn run_history_with(g: u64, steps: &[Step], prune: u64, supply: bool, rep: &mut Report) {
     let hb = 5000u64;
     let mut p = match Prod::new_with(g, hb, 0, false, prune) {
         Ok(p) => p,
@@ -294,7 +311,10 @@ pub fn run_history(g: u64, steps: &[Step], prune: u64, rep: &mut Report) {
         let ts = p.tip_ts + 2 * hb;
         rep.transitions += 1;
         if let Some(tx) = build_tx(&mut p, &s.act, ts) {
-            let _ = p.submit(tx);
+            let admitted = p.submit(tx);
+            if s.act == Act::SpendNftPayload {
+                rep.outcome(if matches!(admitted, Outcome::Done(true)) { "nft-payload-spent-on-its-own:admitted" } else { "nft-payload-spent-on-its-own:refused-by-the-pool" });
+            }
         } else if s.act != Act::Empty {
             rep.outcome("action-not-applicable");
         }
@@ -356,6 +376,13 @@ pub fn run_history(g: u64, steps: &[Step], prune: u64, rep: &mut Report) {
                     return;
                 }
                 let blk = decode_block(&bytes);
+                if supply {
+                    if let Err(e) = supply_check(&p.node, &p.ledger, p.issued, g) {
+                        rep.violate("supply-mismatch/history", format!("step {} {:?}: {}", i, s.act, e), ctx.clone());
+                        return;
+                    }
+                    rep.outcome("supply-conserved-after-block");
+                }
                 let h = blk.id;
                 let parent = blocks.last().unwrap().clone();
                 let expiring = if h > g + 1 { blocks.iter().find(|b| b.id == h - g - 1) } else { None };
@@ -403,7 +430,7 @@ pub fn run_history(g: u64, steps: &[Step], prune: u64, rep: &mut Report) {
 }
 
 pub fn histories(tier: &Tier) -> Vec<(u64, Vec<Step>)> {
-    let acts = vec![Act::Pay(0), Act::Pay(6_000), Act::PayTwo(0), Act::PayTwo(6_000), Act::Dust(30, 6_000), Act::Dust(30, 0), Act::SpendOldest, Act::NftCreate, Act::NftCreateNoChange, Act::Empty];
+    let acts = vec![Act::Pay(0), Act::Pay(6_000), Act::PayTwo(0), Act::PayTwo(6_000), Act::Dust(30, 6_000), Act::Dust(30, 0), Act::SpendOldest, Act::NftCreate, Act::NftCreateNoChange, Act::SpendNftPayload, Act::Empty];
     let mut v = vec![];
     for g in [3u64, 4, 5] {
         if g == 5 && !tier.thorough {
@@ -434,7 +461,7 @@ pub fn histories(tier: &Tier) -> Vec<(u64, Vec<Step>)> {
                     v.push((g, s.clone()));
                     if tier.thorough || g == 3 {
                         for pos2 in (pos + 1)..n {
-                            for a2 in [Act::SpendOldest, Act::Dust(30, 6_000), Act::NftCreate, Act::NftCreateNoChange, Act::PayTwo(fee)] {
+                            for a2 in [Act::SpendOldest, Act::Dust(30, 6_000), Act::NftCreate, Act::NftCreateNoChange, Act::SpendNftPayload, Act::PayTwo(fee)] {
                                 let mut s2 = s.clone();
                                 s2[pos2].act = a2;
                                 v.push((g, s2));
